@@ -58,6 +58,7 @@ _MODFILES = {
     'bmc::dataset_comparison::verif_cmp': ('statime/src/bmc/dataset_comparison.rs', 'dataset_comparison.rs'),
     'bmc::bmca::verif_bmca': ('statime/src/bmc/bmca.rs', 'bmc_bmca.rs'),
     'ptp_instance::verif_inst': ('statime/src/ptp_instance.rs', 'instance.rs'),
+    'time::verif_time': ('statime/src/time/mod.rs', 'time_mod.rs'),
     'filters::kalman::verif_servo': ('statime/src/filters/kalman.rs', 'kalman.rs'),
     'filters::basic::verif_basic': ('statime/src/filters/basic.rs', 'basic.rs'),
 }
@@ -76,6 +77,23 @@ def module_file_for(modpath):
 def kani_contracts(pid):
     return []
 
+
+# Verus obligation (unit, function) -> Kani harness that looks for a concrete failing input when that obligation fails
+TM = 'time::verif_time::'
+VERUS_PAIRS = {
+    ('time', 'TimeInterval::from'): TM + 'c16_pair_duration_to_interval_floor',
+    ('time', 'c16_duration_to_interval_floor'): TM + 'c16_pair_duration_to_interval_floor',
+    ('time', 'c16_interval_round_trip'): TM + 'c16_pair_interval_round_trip',
+    ('time', 'Duration::from'): TM + 'c16_pair_interval_round_trip',
+    ('time', 'Time::add'): TM + 'c16_pair_add_sub_exact',
+    ('time', 'Time::sub'): TM + 'c16_pair_add_sub_exact',
+    ('time', 'Duration::add'): TM + 'c16_pair_add_sub_exact',
+    ('time', 'Duration::neg'): TM + 'c16_pair_add_sub_exact',
+    ('time', 'c16_add_then_sub'): TM + 'c16_pair_add_sub_exact',
+    ('time', 'c16_diff_then_add'): TM + 'c16_pair_add_sub_exact',
+    ('time', 'Time::from'): TM + 'c16_pair_time_of_wire',
+    ('time', 'Time::subnano'): TM + 'c16_pair_subnano',
+}
 
 QT = ('quick', 'thorough')
 TH = ('thorough',)
@@ -144,7 +162,8 @@ C09_H = [
 C14_H = [
     H(S, 'c14_send_p2p_delay_request', functions=_peer_fns),
     H(S, 'c14_pdelay_timestamp'),
-    H(S, 'c14_pdelay_resp', tiers=TH),
+    H(S, 'c14_pdelay_resp_two_step'),
+    H(S, 'c14_pdelay_resp_one_step'),
     H(S, 'c14_pdelay_resp_follow_up'),
 ]
 C14_FINDINGS = [
@@ -336,7 +355,7 @@ PROPS = {
     ),
     'C16': dict(
         verus=['time'],
-        kani=[],
+        kani=[H(TM, 'c16_pair_duration_to_interval_floor', functions=['(second engine on the Verus contracts of unit time)']), H(TM, 'c16_pair_interval_round_trip'), H(TM, 'c16_pair_add_sub_exact'), H(TM, 'c16_pair_time_of_wire'), H(TM, 'c16_pair_subnano')],
         exec=[dict(name='c16_log_interval', label='enumerated by execution: all i8 log-interval values n <= 65 on the real functions, compared with exact integers; not deductive')],
         assumptions=[
             'contracts of the `fixed` crate operations (shim/fixed.rs) are assumed, not verified: + - * / % neg abs from_bits to_bits frac to_num to_fixed lossy_into lossless_try_into as exact integer formulas on bit patterns with representability preconditions',
